@@ -171,8 +171,16 @@ pub fn run(cfg: &RunCfg) -> Report {
         cases.extend(random_cases(cfg, 0xC05, cfg.budget(800, 20000), || GenCfg { max_depth: 3, max_comps: 6, tags: true, groups: true, defaults: false }));
         rep.exhaustive = true;
     }
+    let setting = cfg.replay.as_ref().and_then(|r| r.get("case").unwrap_or(r).get("setting").and_then(|x| x.as_str()).map(|x| x.to_string())).unwrap_or_default();
+    if setting == CLASS_FIELD_SETTING || setting == CLASS_FIELD_SETTING_LAST {
+        judge_class_field_at("c05", &cases, &mut rep, &describe, setting == CLASS_FIELD_SETTING_LAST);
+        return rep;
+    }
     judge("c05", &cases, &mut rep, &describe);
     if cfg.replay.is_none() {
+        // ... and when a component is written as a reference to a fixed-type class field (the linker rebuilds such
+        // definitions member by member, first-extension index included)
+        judge_class_field("c05", &cases, &mut rep, &describe);
         components_of_extensible(&mut rep);
     }
     rep
